@@ -284,7 +284,7 @@ class _Gen:
             elif k == "heat" and self.meta["thermal"]:
                 ops.extend(self.op_heat_from_stored())
             elif k == "reusepair":
-                ops.extend(self.op_reuse_pair())
+                ops.extend(self.op_reuse_pair() if rng.random() < 0.6 else self.op_budget_history())
             else:
                 ops.extend(self.op_undo())
         ops.extend(self.op_undo(all_=True))
@@ -379,9 +379,11 @@ class _Gen:
             cands.append((t, i, c, "scale"))
         for (t, i, c) in self.meta["toggles"]:
             cands.append((t, i, c, "toggle"))
-        if self.meta["fluid"] == "water" and not self.program.get("fluid_spec") and rng.random() < 0.12 and "fluid:density" not in self.values:
+        has_pump = any(b[0] == "pump" for b in self.meta["branches"])
+        if self.meta["fluid"] == "water" and not self.program.get("fluid_spec") and rng.random() < (0.4 if has_pump else 0.12) \
+                and "fluid:density" not in self.values and "fluid:viscosity" not in self.values:
             # a property of the Fluid object replaced in place (restored by the undo)
-            which = rng.choice(["density", "viscosity"])
+            which = rng.choice(["density", "density", "viscosity"] if has_pump else ["density", "viscosity"])
             val = {"density": rng.choice([850.0, 970.0]), "viscosity": rng.choice([5e-4, 1.2e-3])}[which]
             self.values["fluid:" + which] = val
             self.pending_undo.append(("__fluid__", which, None, None))
@@ -459,6 +461,24 @@ class _Gen:
             fault = rng.choice(["open", "write"])
         return {"op": "restart", "path": path, "disk_fault": fault,
                 "errno": rng.choice([28, 5])}
+
+    def op_budget_history(self):
+        """The iteration budget lives in the stored user options only and is lowered between two calculations:
+        the second one has to stop within the new budget."""
+        rng = self.rng
+        big = rng.choice([40, 60])
+        small = rng.choice([1, 1, 2])
+        kw = self.calc_kw()
+        for key in ("iter",) + STAGE_ITER + ("alpha", "nonlinear_method"):
+            kw.pop(key, None)
+        ops = [{"op": "setopt", "reset": False, "kw": {"iter": big}},
+               {"op": "calc", "kw": dict(kw), "faults": []},
+               {"op": "setopt", "reset": False, "kw": {"iter": small}},
+               {"op": "calc", "kw": dict(kw), "faults": []},
+               {"op": "setopt", "reset": True, "kw": {}}]
+        self.last_calc = ops[1]
+        self.dirty_since_hyd = True
+        return ops
 
     def op_reuse_pair(self):
         """Two calculations that legitimately share the cached matrix structure (only_update_hydraulic_matrix, the
